@@ -207,6 +207,7 @@ pub fn build<Data: GarnishData>(parse_root: usize, parse_tree: Vec<ParseNode>, d
             }
         };
         let mut stack = vec![root_index];
+        let root_first_instruction = data.get_instruction_len();
 
         while let Some(node_index) = stack.pop() {
             let parse_node = match parse_tree.get(node_index) {
@@ -239,7 +240,11 @@ pub fn build<Data: GarnishData>(parse_root: usize, parse_tree: Vec<ParseNode>, d
             }
         }
 
-        let last_instruction = data.get_instruction_iter().last();
+        // only an instruction emitted by this root can already be its terminator
+        let last_instruction = match data.get_instruction_len() > root_first_instruction {
+            true => data.get_instruction_iter().last(),
+            false => None,
+        };
         let end_instructions = match nodes.get(root_index) {
             Some(Some(node)) => match &node.root_end_instruction {
                 Some(end_instruction) => end_instruction.clone(),
